@@ -53,6 +53,18 @@ const None = -2000000000
 //
 // depth -1 is the automatic depth. Ranges are [x,y,z,rn,rd] (radius rn/rd),
 // rays are [ox,oy,oz,dx,dy,dz,t0n,t1n,td] (tmin=t0n/td, tmax=t1n/td).
+//
+// Round 5, VALUE CLASSES (chosen by the generator, executed here): a query
+// tuple may carry trailing integers
+//
+//	qpts   [x,y,z,zs,tw]      ranges [x,y,z,rn,rd,zs,rc,tw]
+//	rays   [ox,..,dz,t0n,t1n,td,zs,tw]
+//
+// zs: bit i of the mask = component i of the tuple (x,y,z / ox,oy,oz,dx,dy,dz)
+// whose integer value is 0 is NEGATIVE ZERO (math.Copysign(0,-1)); rc: radius
+// class, 0 = rn/rd, 1 = 1e300, 2 = rn/rd + the smallest subnormal; tw: 1-based
+// position of the twin query (same reals, class 0) in the same list, 0 = none.
+// Queries without the trailing integers are padded with zeros on reading.
 type Case struct {
 	Id     int     `json:"id"`
 	Tag    string  `json:"tag,omitempty"`
@@ -110,6 +122,7 @@ type treeLine struct {
 // mcp is the mesh-level scan: Primitive.ClosestPoint(attr, q) of every
 // primitive of the mesh the tree was asked from (empty without a mesh).
 type closestEntry struct {
+	Tw  int     `json:"tw"`
 	D2  []int   `json:"d2"`
 	Cp  [][]int `json:"cp"`
 	Mcp [][]int `json:"mcp"`
@@ -117,18 +130,25 @@ type closestEntry struct {
 	Rp  []int   `json:"rp"`
 }
 
+// q echoes the integers of the query (padded form) so that the judge can
+// compute its own reference for lattice boxes; tw is the twin entry.
 type setEntry struct {
+	Q   []int `json:"q"`
+	Tw  int   `json:"tw"`
 	Hit []int `json:"hit"`
 	Res []int `json:"res"`
 }
 
 type rayEntry struct {
+	Q    []int `json:"q"`
+	Tw   int   `json:"tw"`
 	Hit  []int `json:"hit"`
 	Res  []int `json:"res"`
 	Trav []int `json:"trav"`
 }
 
 type nearEntry struct {
+	Tw   int   `json:"tw"`
 	Te   []int `json:"te"`
 	Hitb []int `json:"hitb"`
 	Vis  []int `json:"vis"`
@@ -200,6 +220,7 @@ type hitRes struct {
 }
 
 type hitEntry struct {
+	Tw   int    `json:"tw"`
 	Te   []int  `json:"te"`
 	List hitRes `json:"list"`
 	Bvh  hitRes `json:"bvh"`
@@ -240,6 +261,47 @@ func lat(x float64, exact *bool) int {
 	return int(r)
 }
 
+// pad returns q with zeros appended up to n integers (a copy).
+func pad(q []int, n int) []int {
+	out := make([]int, n)
+	copy(out, q)
+	return out
+}
+
+// normalise brings every query of the case to the padded form.
+func (c *Case) normalise() {
+	for i, q := range c.QPts {
+		c.QPts[i] = pad(q, 5)
+	}
+	for i, q := range c.Ranges {
+		c.Ranges[i] = pad(q, 8)
+	}
+	for i, q := range c.Rays {
+		c.Rays[i] = pad(q, 11)
+	}
+}
+
+// zv is component i of a query tuple as a real: the integer value, or negative
+// zero when the value is 0 and bit i of the class mask zs is set.
+func zv(q []int, i, zs int) float64 {
+	if q[i] == 0 && zs&(1<<uint(i)) != 0 {
+		return math.Copysign(0, -1)
+	}
+	return float64(q[i])
+}
+
+// radiusOf is the radius of a (padded) range query in its class.
+func radiusOf(q []int) float64 {
+	r := float64(q[3]) / float64(q[4])
+	switch q[6] {
+	case 1:
+		return 1e300
+	case 2:
+		return r + math.SmallestNonzeroFloat64
+	}
+	return r
+}
+
 func ids1(v []int) []int {
 	out := make([]int, len(v))
 	for i, x := range v {
@@ -277,6 +339,7 @@ func readCases(in string, each func(c Case) error) error {
 		if err := json.Unmarshal(sc.Bytes(), &c); err != nil {
 			return fmt.Errorf("case %d: %w", n, err)
 		}
+		c.normalise()
 		if err := each(c); err != nil {
 			return fmt.Errorf("case %d: %w", n, err)
 		}
